@@ -194,13 +194,15 @@ class Ctx:
 
   # ---- design level ---------------------------------------------------------------------------
   def model(self, module, cfg, *, expect_violation=None, env=None, workers=None, timeout=3600,
-            coverage=True, extra=(), note=None, heap="6g"):
+            coverage=None, extra=(), note=None, heap="6g"):
     """Exhaustive (or simulated) TLC run of a design-level model.
 
     A design-level invariant failure is not a verdict about the code; it is a machinery-level
     stop (exit 2) unless `expect_violation` names the invariant that is expected to fail (used
     for self-tests showing that a contract is not vacuous / that a known finding exists at
     design level)."""
+    if coverage is None:      # -coverage costs 2-3x on the recursion-heavy models: thorough tier only
+      coverage = not self.quick
     r = run_tlc(module, cfg, env=env, workers=workers, timeout=timeout, coverage=coverage,
                 extra=extra, heap=heap)
     rec = {"module": module, "cfg": cfg, "generated": r.generated, "distinct": r.distinct,
